@@ -21,6 +21,106 @@ class ContractViolation(Exception):
         self.qualname, self.clause, self.detail = qualname, clause, detail
 
 
+class ConcOpt:
+    """an optional argument (None or a sequence) as the clause language sees it"""
+
+    def __init__(self, value):
+        self.present = value is not None
+        self.value = _total(value) if value is not None else TotalSeq([])
+
+    def __getitem__(self, i):
+        # clauses are evaluated eagerly (`implies(present, ...)` computes both sides): an absent value reads as 0
+        return self.value[i]
+
+    def __len__(self):
+        return len(self.value)
+
+
+class TotalSeq:
+    """a caller-supplied sequence as the clause language sees it: a total map (the symbolic semantics reads arrays as
+    total maps too).  Clauses are evaluated eagerly, so `implies(x < n, a[x] == ..)` touches a[x] for every x of the
+    quantifier's range; an out-of-range read yields a zero element instead of raising."""
+
+    def __init__(self, raw):
+        import numpy as np
+        self.raw = raw
+        self._np = np
+
+    def __len__(self):
+        return len(self.raw)
+
+    def __iter__(self):
+        return iter(self.raw)
+
+    def __array__(self, dtype=None, copy=None):
+        a = self._np.asarray(self.raw)
+        return a.astype(dtype) if dtype is not None else a
+
+    @property
+    def shape(self):
+        return self._np.asarray(self.raw).shape
+
+    def __getitem__(self, i):
+        try:
+            ii = int(i)
+        except Exception:
+            return self.raw[i]
+        n = len(self.raw)
+        if 0 <= ii < n:
+            return self.raw[ii]
+        if n and hasattr(self.raw[0], "__len__"):
+            return self._np.zeros_like(self._np.asarray(self.raw[0]))
+        return 0
+
+    def __eq__(self, other):
+        return bool(self._np.array_equal(self._np.asarray(self.raw), self._np.asarray(getattr(other, "raw", other))))
+
+    __hash__ = object.__hash__
+
+
+def _total(v):
+    import numpy as np
+    if isinstance(v, (list, tuple, np.ndarray)) and getattr(v, "ndim", 1) >= 1:
+        return TotalSeq(v)
+    return v
+
+
+class GhostAny:
+    """a logical witness of a contract (v.ghost(..)) has no run-time value: every atom that mentions it evaluates to
+    True, so such clauses are simply not checked at run time (they are proof-only) while the others are"""
+
+    def __getitem__(self, i):
+        return self
+
+    def __call__(self, *a, **k):
+        return self
+
+    def __getattr__(self, name):
+        if name.startswith("__"):
+            raise AttributeError(name)
+        return self
+
+    def __bool__(self):
+        return True
+
+    def __len__(self):
+        return 0
+
+    def __index__(self):
+        return 0
+
+    def _t(self, other):
+        return True
+
+    __eq__ = __ne__ = __lt__ = __le__ = __gt__ = __ge__ = _t
+
+    def _s(self, other=None):
+        return self
+
+    __add__ = __radd__ = __sub__ = __rsub__ = __mul__ = __rmul__ = __truediv__ = __rtruediv__ = __neg__ = _s
+    __hash__ = object.__hash__
+
+
 class Twin:
     def __init__(self):
         self.hits = {}
@@ -30,11 +130,18 @@ class Twin:
         self.raise_on_fail = True
         self.depth = 0
 
-    def _ns(self, fn, args, kwargs):
+    def _ns(self, fn, args, kwargs, contract=None):
         sig = inspect.signature(fn)
         ba = sig.bind(*args, **kwargs)
         ba.apply_defaults()
-        return dict(ba.arguments)
+        d = dict(ba.arguments)
+        if contract is not None:
+            for k, ty in contract.params.items():
+                if isinstance(ty, str) and ty.startswith("opt") and k in d:
+                    d[k] = ConcOpt(d[k])      # the clauses read `.present` / `.value` / `[i]` of optional parameters
+                elif isinstance(ty, str) and ty.startswith("list") and k in d:
+                    d[k] = _total(d[k])
+        return d
 
     def snapshot(self, binding, c):
         snap = {}
@@ -51,11 +158,12 @@ class Twin:
 
         @functools.wraps(fn)
         def wrapper(*args, **kwargs):
-            binding = twin._ns(fn, args, kwargs)
+            binding = twin._ns(fn, args, kwargs, c)
             prev = L.MODE.kind
             L.MODE.kind = "conc"
             try:
-                v = types.SimpleNamespace(**binding)
+                v = types.SimpleNamespace(ghost=lambda name, ty=None: GhostAny(), ghostfn=lambda *a, **k: GhostAny(),
+                                          **binding)
                 try:
                     pre = c.requires(v)
                     pre_ok = all(bool(it[1]) for it in pre)
